@@ -125,10 +125,68 @@ class Agg(object):
         self.digests.update(o.digests)
 
 
+class _Sink(object):
+    def write(self, s):
+        return len(s)
+
+    def flush(self):
+        pass
+
+
+class RunTimeout(BaseException):
+    pass
+
+
+def _on_alarm(signum, frame):
+    raise RunTimeout()
+
+
+RUN_LIMIT_S = float(os.environ.get('VERIF_RUN_LIMIT_S', '40'))
+_MEM_LIMITED = [False]
+
+
+def _limit_memory():
+    """a runaway buffer in the code under test must end as MemoryError inside the call, not as an OOM kill"""
+    if _MEM_LIMITED[0]:
+        return
+    _MEM_LIMITED[0] = True
+    try:
+        import resource
+        lim = int(os.environ.get('VERIF_MEM_BYTES', str(6 * 1024 ** 3)))
+        soft, hard = resource.getrlimit(resource.RLIMIT_AS)
+        if hard != resource.RLIM_INFINITY:
+            lim = min(lim, hard)
+        resource.setrlimit(resource.RLIMIT_AS, (lim, hard))
+    except Exception:
+        pass
+
+
+def run_quiet(prop, scenario):
+    """Runs one scenario. rtamt prints from inside some operations (e.g. the discrete ln operation): keep that
+    off our stdout. A run that exceeds RUN_LIMIT_S wall seconds (normal runs take milliseconds) is reported as
+    the violation clause 'hang' (it still has to reproduce in the fresh-interpreter replay)."""
+    import contextlib
+    import signal
+    _limit_memory()
+    old = signal.signal(signal.SIGALRM, _on_alarm)
+    signal.setitimer(signal.ITIMER_REAL, RUN_LIMIT_S)
+    try:
+        with contextlib.redirect_stdout(_Sink()):
+            return prop.run(scenario)
+    except RunTimeout:
+        res = Result()
+        res.violate('hang', limit_s=RUN_LIMIT_S)
+        res.obs.append('hang')
+        return res
+    finally:
+        signal.setitimer(signal.ITIMER_REAL, 0)
+        signal.signal(signal.SIGALRM, old)
+
+
 def one_run(prop, seed, k, tier):
     rng = prng.rng_for(seed, prop.ID, k)
     scenario = prop.gen(rng, tier)
-    res = prop.run(scenario)
+    res = run_quiet(prop, scenario)
     return scenario, res
 
 
@@ -180,7 +238,7 @@ def replay_witnesses(prop):
             continue
         wpath = os.path.join(VERIF, e['witness'])
         rec = json.load(open(wpath))
-        res = prop.run(rec['scenario'])
+        res = run_quiet(prop, rec['scenario'])
         if e['clause'] in res.clauses():
             lines.append('KNOWN-FINDING: property=%s %s (witness %s, envelope rule %s)' %
                          (prop.ID, e['what'], e['witness'], e.get('envelope', '-')))
@@ -196,7 +254,7 @@ def replay_witnesses(prop):
 
 def same_failure(prop, scenario, clause):
     try:
-        res = prop.run(scenario)
+        res = run_quiet(prop, scenario)
     except Exception:
         return False
     if res.discarded:
@@ -244,7 +302,7 @@ def write_replay(prop, seed, k, clause, scenario, detail, shrunk_from=None):
 
 def replay_file(prop, path, verbose=True):
     rec = json.load(open(path))
-    res = prop.run(rec['scenario'])
+    res = run_quiet(prop, rec['scenario'])
     want = rec.get('clause')
     got = res.clauses()
     if verbose:
@@ -363,7 +421,7 @@ def run_check(prop_name, tier, replay=None, digests=None, quiet=False, runs_over
             seen_clauses.add(clause)
             scenario, res = one_run(prop, seed, k, tier)
             small, n_exec = shrink(prop, scenario, clause)
-            res2 = prop.run(small)
+            res2 = run_quiet(prop, small)
             detail = [v for v in res2.violations if v['clause'] == clause][:1]
             path = write_replay(prop, seed, k, clause, small, detail, shrunk_from=len(jdump(scenario)))
             if fresh_replay_fails(prop, path):
